@@ -259,7 +259,7 @@ class FuncTr:
                 if lt.startswith("list"):
                     if isinstance(e.left, ast.List) and len(e.left.elts) == 1:
                         return f"(repeatQ {self.expr(e.left.elts[0])} {b})"
-                    raise Unsupported("list * n with non-singleton list")
+                    return f"(list_repeat {a} {b})"          # Python list repetition
                 return f"(qmul {a} {b})"
             if isinstance(e.op, ast.Div):
                 return f"(qdiv {a} {b})"
@@ -1189,6 +1189,11 @@ def build_spec(g):
     g.default_arg("search_routines.py", "RowWiseModifiedBisectionSearch.__init__", "max_iter", "max_iter_rowwise")
     g.func("ground_heat_exchangers.py", "BaseGHE.cost", coqname="cost",
            extra_strict=["self.sim_params.max_EFT_allowable", "self.sim_params.min_EFT_allowable"])
+    # ---- the load sequence of an hourly simulation (GHE.simulate, HOURLY branch) ----
+    SIM = "GHE.simulate"
+    g.assign_expr("ground_heat_exchangers.py", SIM, "n_hours", "hourly_n_hours", ["n_months"], index=0)
+    g.assign_expr("ground_heat_exchangers.py", SIM, "n_years", "hourly_n_years", ["n_hours"])
+    g.assign_expr("ground_heat_exchangers.py", SIM, "q_dot", "hourly_tile", ["q_dot", "n_years", "n_hours"], ptypes={"q_dot": "list Q"}, index=3)
     g.assign_expr("utilities.py", "solve_root", "kg_minus_sign", "root_sign", ["minus"])
     g.assign_expr("utilities.py", "solve_root", "kg_plus_sign", "root_sign_plus", ["plus"])
     g.func("search_routines.py", "Bisection1D.retrieve_flow", coqname="retrieve_flow", rettype="tuple", raises=True,
